@@ -14,7 +14,7 @@ import time
 import vlib
 from vlib import log
 
-INV = ["ConcReadsRefine", "ConcScansRefine", "ConcStructure", "HiddenAtRest"]
+INV = ["ConcReadsRefine", "ConcScansRefine", "ConcStructure", "HiddenAtRest", "ConcPubReads"]
 
 
 def conc_cfg(path, consts, action_constraint=None, invariants=INV):
@@ -56,17 +56,34 @@ def run(prop, tier):
                      "Procs": {"w", "f", "k"}, "Guard287": True}),
             ("wfr", {"CKeys": {1, 2}, "CVals": {1, 2, 3}, "NWrites": 3, "NFlushes": 2, "NCompactions": 0,
                      "NRotates": 2, "Procs": {"w", "f", "r"}, "Guard287": True}),
+            ("wfcd", {"CKeys": {1, 2}, "CVals": {1, 2, 3}, "NWrites": 2, "NFlushes": 2, "NCompactions": 1,
+                      "Procs": {"w", "f", "c", "d"}, "Guard287": True}),
         ]
+        # the caller's seqno.next() and the insert as two steps: other threads run in between
+        scen.append(("w2fr", {"CKeys": {1, 2}, "CVals": {1, 2, 3}, "NWrites": 3, "NFlushes": 1, "NCompactions": 0,
+                              "NRotates": 1, "Procs": {"w", "f", "r"}, "Guard287": True, "SplitW": True}))
         for _, consts in scen:
             consts.setdefault("NRotates", 0)
+            consts.setdefault("SplitW", False)
         if tier == "thorough":
             scen.append(("wfc2", {"CKeys": {1, 2}, "CVals": {1, 2, 3}, "NWrites": 4, "NFlushes": 2,
-                                  "NCompactions": 2, "NRotates": 0, "Procs": {"w", "f", "c"}, "Guard287": True}))
+                                  "NCompactions": 2, "NRotates": 0, "SplitW": False, "Procs": {"w", "f", "c"}, "Guard287": True}))
             scen.append(("wfcr", {"CKeys": {1, 2}, "CVals": {1, 2, 3}, "NWrites": 3, "NFlushes": 2,
-                                  "NCompactions": 1, "NRotates": 1, "Procs": {"w", "f", "c", "r"},
+                                  "NCompactions": 1, "NRotates": 1, "SplitW": False, "Procs": {"w", "f", "c", "r"},
                                   "Guard287": True}))
+            scen.append(("w2fcr", {"CKeys": {1, 2}, "CVals": {1, 2, 3}, "NWrites": 3, "NFlushes": 1,
+                                   "NCompactions": 1, "NRotates": 1, "SplitW": True,
+                                   "Procs": {"w", "f", "c", "r"}, "Guard287": True}))
         states = trans = 0
         scheds = []
+        witnesses = {}
+        forced_first = []
+        known = vlib.load_known()
+        listed = {f["id"]: f for f in known.get("findings", []) if f.get("property") == prop}
+        for f in listed.values():
+            if f.get("example_replay"):
+                with open(os.path.join(vlib.VERIF, f["example_replay"])) as fh:
+                    forced_first.append(json.load(fh)["behaviour"]["sched"])
         for name, consts in scen:
             cfg = os.path.join(work, f"{name}.cfg")
             conc_cfg(cfg, consts)
@@ -78,6 +95,25 @@ def run(prop, tier):
             states += st.get("distinct", 0)
             trans += st.get("generated", 0)
             log(f"[{prop}] LsmConc {name}: {st.get('distinct')} states, all interleavings ok")
+            if consts.get("SplitW"):
+                # witness: the recorded known finding is reachable in the model (NoLateInsert is
+                # expected to be violated); its counterexample is replayed like any schedule
+                cfgw = os.path.join(work, f"{name}-wit.cfg")
+                conc_cfg(cfgw, consts, invariants=["NoLateInsert"])
+                cex = os.path.join(work, f"{name}-wit.json")
+                rc, out = vlib.run_tlc("MC_conc.tla", cfgw, work, workers=4, timeout=900,
+                                       extra=["-dumpTrace", "json", cex])
+                wit = "Invariant NoLateInsert is violated" in out
+                witnesses[name] = wit
+                if wit:
+                    try:
+                        with open(cex) as f:
+                            dd = json.load(f)
+                        ws = max((x[1].get("sched", []) for x in dd["counterexample"]["state"]), key=len)
+                        scheds.append(ws)
+                        forced_first.append(ws)
+                    except (OSError, KeyError, ValueError, IndexError):
+                        pass
             # schedules: sampled edge cover of the interleaving graph; long ones only
             cfg2 = os.path.join(work, f"{name}-gen.cfg")
             k = "PrintSched40" if tier == "quick" else "PrintSched1"
@@ -116,7 +152,7 @@ def run(prop, tier):
                     sch.append(dict(wr(1, t, 3), probe=True))
                     sch.append(wr(2, "V", 2))
                     probes.append(sch)
-        uniq = probes + uniq
+        uniq = probes + forced_first + [u for u in uniq if u not in forced_first]
         inp = os.path.join(work, "scheds.ndjson")
         outp = os.path.join(work, "conc-trace.ndjson")
         with open(inp, "w") as f:
@@ -138,6 +174,17 @@ def run(prop, tier):
         # final flush every acknowledged write is durable and the reopen is checked by READ / SCAN)
         kinds = {"READ", "SCAN", "SCANX", "STRUCT", "META", "FILES", "HIDDENREST", "OPFAIL", "MALFORMED"}
         viols = [m for m in msgs if m["kind"] == "VIOL" and m["what"] in kinds]
+        # reads matched by the signature of a listed known finding are reported as such; a
+        # signature that is not listed suppresses nothing
+        known_hit = {}
+        for m in msgs:
+            if m["kind"] == "KNOWN":
+                if m["what"] in listed:
+                    known_hit.setdefault(m["what"], []).append(m)
+                else:
+                    viols.append(dict(m, kind="VIOL", what="READ"))
+        for fid in sorted(known_hit):
+            print(f"KNOWN-FINDING: property={prop} {fid}: {listed[fid]['summary']}")
         first = {}
         for m in sorted(viols, key=lambda x: (x["beh"], x["step"])):
             first.setdefault(m["beh"], m)
@@ -204,13 +251,17 @@ def run(prop, tier):
             "samples": uniq[:2],
             "trace_lines_validated": nl,
             "scenarios": [n for n, _ in scen],
+            "known_finding_reachable_in_model": witnesses,
+            "known_findings_reproduced": sorted(known_hit),
+            "atomicity_probes": len(probes),
             "drift_lines": sum(1 for m in msgs if m["kind"] == "DRIFT"),
             "exhaustive": tier == "thorough",
         }
         vlib.write_evidence(prop, tier, "model_checking", cov, time.time() - t0, len(first) + len(fviol),
                             ["every critical section is atomic under its lock; the lock-free memtable and the atomics are linearizable",
-                             "one flusher (the flush lock serialises flushes), one compactor issuing major-style merges; schedules are forced at the four yield points of the verif hooks",
+                             "one flusher (the flush lock serialises flushes), one compactor issuing major-style merges; schedules are forced at the yield points of the verif hooks; rotator, drop_range and clear threads; atomicity probes park the writer inside Memtable::insert",
                              "quick tier replays a sample of the maximal schedules of the interleaving graph",
+                             "free-running driver: the writer does not hold an allocated seqno across a memtable rotation (a driver-level lock, what fjall's journal lock provides); the case without that protocol is the recorded known finding C06-late-insert, decided by the forced schedules (scenario w2fr: seqno allocation and insert as two steps)",
                              "free-running readers use snapshots the writer has published (its own mark), as the property states; the tree's visible_seqno is also advanced by version installs and may run ahead of a write in flight (DESIGN.md 9, observations)",
                              "a violation found in a free-running round is reported with the recorded event log as replay (the OS schedule is not reproducible)"])
         log(f"[{prop}] {len(uniq)} forced schedules, {nl} lines, {len(first)} violations, {round(time.time()-t0)}s")
